@@ -87,10 +87,14 @@ impl State {
         for (key, counter) in counters {
             let (value, points_flushed) = counter.flush();
 
-            // If the counter is already idle, and no updates were made since the last time the counter was flushed,
+            // If the counter is already idle, and its value did not change since the last time the counter was flushed,
             // then we've already emitted our zero value and no longer need to emit updates until the counter is active
             // again.
-            if points_flushed == 0 {
+            //
+            // Idleness is decided on the flushed delta itself rather than on the number of updates: the update count
+            // is not read atomically with the value, so an update racing with the flush could otherwise have its
+            // delta dropped for an idle counter, or leave the counter without (or with a second) trailing zero.
+            if value == 0 {
                 if flush_state.is_counter_idle(&key) {
                     continue;
                 }
